@@ -354,10 +354,24 @@ pub fn gen_cwin(t: &mut Tape) -> Scenario {
     let keys = [1u16, 2, 4, 40][g.t.draw(4) as usize];
     let len = [0usize, 1, 3, 11, 40, 160, 600][g.t.draw(7) as usize];
     let par = g.t.draw(3) != 0;
-    let mut st = g.add_source(par, len, keys);
+    // a quarter of the runs feeds the window from a timestamped source that also emits
+    // watermarks: count windows ignore time, the markers must not disturb the groups
+    let timed = g.t.draw(4) == 3;
+    let mut st = if timed {
+        let mut o = script_opts(g.t, 1);
+        o.keys = keys;
+        if o.wm_every == 0 {
+            o.wm_every = 1 + g.t.draw(3) as usize;
+        }
+        let repl = if par { Repl::Unlimited } else { Repl::One };
+        gen_scripted_source(&mut g, &o, repl)
+    } else {
+        g.add_source(par, len, keys)
+    };
     for _ in 0..g.t.draw(3) {
         match g.t.draw(3) {
             0 => st = g.un(st, UnOp::Shuffle),
+            1 if timed => st = g.un(st, UnOp::Map(MapFn::Add(1))),
             1 => {
                 let op = g.gen_map();
                 st = g.un(st, op);
@@ -385,12 +399,17 @@ pub fn gen_cwin(t: &mut Tape) -> Scenario {
         let a = g.attrs[st2].take().unwrap();
         // replay presents the same input every round, iterate feeds the windows back: different
         // per-key lengths (and leftovers) in every round
-        let iterate = g.t.draw(2) == 1;
+        let iterate = g.t.draw(2) == 1 && !timed;
         let mut body = vec![Step::Un(0, win)];
         let mut body_out = 1;
-        if iterate {
-            body.push(Step::Un(1, UnOp::Shuffle));
+        if timed {
+            // the end of a loop body does not take timestamped elements
+            body.push(Step::Un(1, UnOp::DropTs));
             body_out = 2;
+        }
+        if iterate {
+            body.push(Step::Un(body_out, UnOp::Shuffle));
+            body_out += 1;
         }
         let spec = LoopSpec {
             iterate,
